@@ -11,8 +11,10 @@ The options and argument checks around the brace-syntax conversion (C08), on top
   the ladder of argument checks in the order of the code, then the conversion
   (`ignore_blank_lines` is accepted and not used);
 * `CiscoConfParse.handle_ccp_brace_syntax(tmp_lines, syntax)`: junos converts, every other
-  valid syntax passes the lines through, anything else is refused; a `tuple` of lines is let
-  through by this method but refused by `convert_junos_to_ios` (known finding FC08a);
+  valid syntax passes the lines through, anything else is refused; a `tuple` of lines is handed
+  to `convert_junos_to_ios` as a list (`list(tmp_lines)`; before the repair `fix: CiscoConfParse
+  accepts a tuple of lines with syntax='junos'` the tuple itself was passed on and the converter,
+  which insists on a `list`, refused it: finding FC08a);
 * `CiscoConfParse(lines, syntax='junos', factory=…, ignore_blank_lines=…)`: the factory only
   chooses the class of the line objects; `ignore_blank_lines` drops the blank lines of the
   conversion (a statement that is a lone `;` converts to a blank line) before linking.
@@ -140,7 +142,8 @@ def handleBrace (syn : Syn) (tmp : Lines) : Except ErrA (List Str) :=
        | _ => .ok ls)
     | .tuple ls =>
       (match syn with
-       | .junos => convertArgs { input := .tuple ls, stopWidth := some Gen.junosStopWidth,
+       -- `convert_junos_to_ios(list(tmp_lines), …)`
+       | .junos => convertArgs { input := .list ls, stopWidth := some Gen.junosStopWidth,
                                  delims := some (some [['#']]), debugIsInt := true }
        | _ => .ok ls)
 
